@@ -121,10 +121,11 @@ func getArrivalTimeOffset(base time.Time, arrival time.Time) uint16 {
 	if base.Before(arrival) {
 		return 0x1FFF
 	}
-	ato := uint16(base.Sub(arrival).Seconds() * 1024.0)
+	// Compare before converting: uint16() of an out-of-range float wraps around.
+	ato := base.Sub(arrival).Seconds() * 1024.0
 	if ato > 0x1FFD {
 		return 0x1FFE
 	}
 
-	return ato
+	return uint16(ato)
 }
